@@ -1,7 +1,7 @@
 #!/bin/bash
 # Run every property's check (default: quick) one after the other; summary at the end.
 tier=${1:-quick}
-cd /verif
+cd "$(dirname "$0")/.." || exit 3
 rc=0
 for i in $(seq -w 1 20); do
   start=$(date +%s)
